@@ -473,9 +473,11 @@ class SimulationAlgorithm(BaseSimulationAlgorithm):
         df_ind = df.copy()
 
         if self.visit_type == VisitType.DATAFRAME:
+            # individuals are identified by the string form of their ID everywhere else
+            # (cf. `_sample_individual_parameters_from_model_parameters`)
+            df_visits = self.param_study["df_visits"]
             return (
-                self.param_study["df_visits"]
-                .groupby("ID")["TIME"]
+                df_visits.groupby(df_visits["ID"].astype(str))["TIME"]
                 .apply(list)
                 .to_dict()
             )
